@@ -1,14 +1,2 @@
-(* Pins: the statement of every property theorem, re-checked against the compiled files.
-   Weakening a statement in Properties/ makes this file fail. *)
-From BBF Require Import Base.Prelude Base.Names Base.Bits Spec.Sem
-     Model.Expr Model.Table Proofs.ExprProofs Proofs.TableProofs.
-From BBF Require Properties.C02 Properties.C05.
-
-Check C02.C02_expr_default : forall e rho d, eval_default e rho d = sem (complete d rho) e.
-Check C02.C02_expr_coincidence : forall e v v', (forall x, In x (literals e) -> v x = v' x) -> sem v e = sem v' e.
-Check C02.C02_table_default : forall t rho d, t_eval_default t rho d = tsem t (complete d rho).
-Check C05.C05_expr_sem : forall e rho v, sem v (e_restrict e rho) = sem (override v rho) e.
-Check C05.C05_expr_inputs : forall e rho, literals (e_restrict e rho) = set_diff (literals e) (keys rho).
-Check C05.C05_table_sem : forall t rho v, wf_table t -> tsem (t_restrict t rho) v = tsem t (override v rho).
-Check C05.C05_table_inputs : forall t rho, t_inputs (t_restrict t rho) = set_diff (t_inputs t) (keys rho).
-Check C05.C05_table_wf : forall t rho, wf_table t -> wf_table (t_restrict t rho).
+(* all pins *)
+From BBF Require Pins.Pins_C01 Pins.Pins_C02 Pins.Pins_C03 Pins.Pins_C04 Pins.Pins_C05 Pins.Pins_C06 Pins.Pins_C07 Pins.Pins_C08 Pins.Pins_C09 Pins.Pins_C10 Pins.Pins_C11 Pins.Pins_C12 Pins.Pins_C13 Pins.Pins_C14 Pins.Pins_C16 Pins.Pins_C17 Pins.Pins_C18.
